@@ -2,8 +2,8 @@ SPECIFICATION Spec
 CONSTANTS
   MaxLen = 3
   Emit = TRUE
-  Assets = {"ETH", "ETHZ", "ET", "ETHelys"}
-  Sources = {"elys", "band", "Helys", "x"}
+  Assets = {"ETH", "ETHZ", "ETHe", "ETHelys"}
+  Sources = {"elys", "band", "lys", "x"}
   Gaps = {5, 61}
 INVARIANTS EmitSchedule
 CHECK_DEADLOCK FALSE
